@@ -82,11 +82,9 @@ def runCase (inp obs : String) : CaseResult :=
       let tags := [typeTag r0, if anyErr then "some-attempt-refused" else "no-error",
                    if diff then (if explained then "differs-in-class:" ++ k else "differs") else "same-as-model"]
       let stmtModel := stmt c.asts r1 && stmt c.asts r0
-      -- the model itself changes a bound constant only on the success path of the check in `createOrSet`
-      -- (theorem `createOrSet_constant_refused`), i.e. when the new value `Equals` the old one: with no
-      -- difference at all between implementation and model, a failing statement is that class
-      let k := if diff && explained then k
-               else if !diff && !stmtModel then "constant-replaced-by-cmp-equal-value" else ""
+      -- (the model itself changes a bound constant only on the success path of the check in `createOrSet`,
+      -- which since repo fix 923cb5e demands the same types at every level: a failing `stmtModel` has no class)
+      let k := if diff && explained then k else ""
       { model := model, agree := (b == r1 && d == r0) || (diff && explained), stmtModel := stmtModel,
         stmtImpl := stmtImpl, tags := tags, nontrivial := nontrivial, klass := k }
     | .error w, _ | _, .error w =>
